@@ -19,6 +19,15 @@ package preparedmessages
 //@     | && (forall qk :: 0 <= qk && qk < len(qids) - 1 ==> qids[qk] == PIds(storage, pver, blockHeight, latestPreparedView, result.PreprepareMessage.content.SignedHeader().BlockHash())[qk])
 //@     | && qids[len(qids) - 1] == result.PreprepareMessage.content.Sender().MemberId()
 //@     | ==> SW(qids, committeeMembers, len(committeeMembers)) >= Qz(SumMW(committeeMembers, len(committeeMembers))))
+// completeness (C09: the lock is carried - a node that holds a prepared certificate puts it into its vote): a stored proposal of
+// that view with at least one stored PREPARE for its hash whose senders, together with the proposer, reach quorum is extracted
+//@   ensures [C09.complete.a-stored-certificate-that-reaches-quorum-is-extracted] ppStored[latestPreparedView] && len(PIds(storage, pver, blockHeight, latestPreparedView, ppHash[latestPreparedView])) >= 1
+//@     | && (forall cids []primitives.MemberId :: len(cids) == len(PIds(storage, pver, blockHeight, latestPreparedView, ppHash[latestPreparedView])) + 1
+//@     |      && (forall ck :: 0 <= ck && ck < len(cids) - 1 ==> cids[ck] == PIds(storage, pver, blockHeight, latestPreparedView, ppHash[latestPreparedView])[ck])
+//@     |      && cids[len(cids) - 1] == PPAt(storage, blockHeight, latestPreparedView).content.Sender().MemberId()
+//@     |      ==> SW(cids, committeeMembers, len(committeeMembers)) >= Qz(SumMW(committeeMembers, len(committeeMembers))))
+//@     | ==> result != nil
+//@   must_fail [C09.complete.vacuity] !(ppStored[latestPreparedView] && len(PIds(storage, pver, blockHeight, latestPreparedView, ppHash[latestPreparedView])) >= 1)
 // A-STORE, assumed where a term calls this (the caller's receiver is the term): what the log returns satisfied the store
 // preconditions - the proposal is an accepted one, every PREPARE is authentic, canonical, of this instance, from a member
 // other than the leader, for exactly the queried (height, view, hash), and the i-th message is from the i-th listed sender;
